@@ -166,7 +166,7 @@ fn shrink(p: &gen::Prog, impl_out: &str, model_out: &str) -> (gen::Prog, String,
 impl Prop for ModelProg {
     fn cases(&self, tier: Tier) -> u64 {
         match tier {
-            Tier::Quick => 150_000,
+            Tier::Quick => 400_000,
             Tier::Thorough => 4_000_000,
         }
     }
